@@ -18,9 +18,13 @@ Proof. exact append_spec. Qed.
 Theorem C01_whole_frames : forall fs : list (N * N * bytes), Forall wf_frame fs -> split_all (concat (map enc3 fs)) = (map enc3 fs, []).
 Proof. exact split_all_frames. Qed.
 
-(* a channel's mailbox is emptied in FIFO order, every buffer appended whole behind what is already queued: one channel's frames reach the out-buffer in the order it issued them, other channels' bytes only before or after a whole buffer; nothing else in the state changes *)
-Theorem C01_mailbox_fifo : forall (n : N) (bufs : list bytes) (fuel : nat) (c : core) (s : slot), n <> 0 -> alookup n (c_slots c) = Some s -> s_mail s = map MsgSend bufs -> s_mail_tx s = true -> ob_sealed (c_out c) = false -> (length bufs < fuel)%nat -> exists c' : core, chan_readable fuel n c = (OOk, c') /\ ob (c_out c') = ob (c_out c) ++ concat bufs /\ ob_sealed (c_out c') = false /\ c_phase c' = c_phase c /\ c_qs c' = c_qs c /\ (forall k : N, k <> n -> alookup k (c_slots c') = alookup k (c_slots c)) /\ (exists s' : slot, alookup n (c_slots c') = Some s' /\ s_mail s' = []).
+(* a channel's mailbox is taken from in FIFO order, each buffer appended whole; what is not taken (the loop stops as soon as it finds the out-buffer above the high-water mark) stays in the mailbox, in order, and a re-poll of the channels is owed - nothing is lost or reordered across throttling *)
+Theorem C01_mailbox_fifo : forall (n : N) (bufs : list bytes) (fuel : nat) (c : core) (s : slot), n <> 0 -> alookup n (c_slots c) = Some s -> s_mail s = map MsgSend bufs -> s_mail_tx s = true -> ob_sealed (c_out c) = false -> (length bufs < fuel)%nat -> exists (c' : core) (taken rest : list bytes), chan_readable fuel n c = (OOk, c') /\ bufs = taken ++ rest /\ ob (c_out c') = ob (c_out c) ++ concat taken /\ ob_sealed (c_out c') = false /\ c_phase c' = c_phase c /\ c_qs c' = c_qs c /\ c_high c' = c_high c /\ (forall k : N, k <> n -> alookup k (c_slots c') = alookup k (c_slots c)) /\ (exists s' : slot, alookup n (c_slots c') = Some s' /\ s_mail s' = map MsgSend rest) /\ (rest <> [] -> c_need c' = true /\ c_high c < out_len c').
 Proof. exact mailbox_fifo. Qed.
+
+(* ... and below the mark nothing is left behind: if even with everything appended the out-buffer does not exceed the high-water mark, the whole mailbox is taken in that one wake-up *)
+Theorem C01_mailbox_fifo_below_mark : forall (n : N) (bufs : list bytes) (fuel : nat) (c : core) (s : slot), n <> 0 -> alookup n (c_slots c) = Some s -> s_mail s = map MsgSend bufs -> s_mail_tx s = true -> ob_sealed (c_out c) = false -> (length bufs < fuel)%nat -> N.of_nat (length (ob (c_out c) ++ concat bufs)) <= c_high c -> exists c' : core, chan_readable fuel n c = (OOk, c') /\ ob (c_out c') = ob (c_out c) ++ concat bufs /\ (exists s' : slot, alookup n (c_slots c') = Some s' /\ s_mail s' = []).
+Proof. exact mailbox_fifo_below_mark. Qed.
 
 (* a write event of the I/O thread: the bytes written followed by what stays buffered are what was buffered *)
 Theorem C01_stream_write : forall (c : core) (oracle : list wr) (bs : bytes) (wr0 : wres) (ob' : outbuf) (rest : list wr), write_to_stream (c_out c) oracle = (bs, wr0, ob', rest) -> wr0 = WOk -> exists c' : core, handle_event c (EvStream (Some oracle) None) = (OOk, c', bs) /\ bs ++ ob (c_out c') = ob (c_out c) /\ ob_sealed (c_out c') = ob_sealed (c_out c) /\ c_slots c' = c_slots c /\ c_qs c' = c_qs c /\ c_phase c' = c_phase c.
@@ -45,7 +49,8 @@ Check C01_write_conserves : forall (o : outbuf) (oracle : list wr) (w : bytes) (
 Check C01_trace_conserves : forall (ops : list bop) (st : list N * outbuf * list N), (let '(wire, b, acc) := st in wire ++ ob b = acc) -> (fix ok (st0 : bytes * outbuf * bytes) (ops0 : list bop) {struct ops0} : Prop := match ops0 with | [] => True | o :: ops' => no_write_failure st0 o /\ ok (bstep st0 o) ops' end) st ops -> let '(wire', b', acc') := fold_left bstep ops st in wire' ++ ob b' = acc'.
 Check C01_append_spec : forall (o : outbuf) (bs : bytes), ob (ob_append o bs) = (if ob_sealed o then ob o else ob o ++ bs) /\ ob_sealed (ob_append o bs) = ob_sealed o.
 Check C01_whole_frames : forall fs : list (N * N * bytes), Forall wf_frame fs -> split_all (concat (map enc3 fs)) = (map enc3 fs, []).
-Check C01_mailbox_fifo : forall (n : N) (bufs : list bytes) (fuel : nat) (c : core) (s : slot), n <> 0 -> alookup n (c_slots c) = Some s -> s_mail s = map MsgSend bufs -> s_mail_tx s = true -> ob_sealed (c_out c) = false -> (length bufs < fuel)%nat -> exists c' : core, chan_readable fuel n c = (OOk, c') /\ ob (c_out c') = ob (c_out c) ++ concat bufs /\ ob_sealed (c_out c') = false /\ c_phase c' = c_phase c /\ c_qs c' = c_qs c /\ (forall k : N, k <> n -> alookup k (c_slots c') = alookup k (c_slots c)) /\ (exists s' : slot, alookup n (c_slots c') = Some s' /\ s_mail s' = []).
+Check C01_mailbox_fifo : forall (n : N) (bufs : list bytes) (fuel : nat) (c : core) (s : slot), n <> 0 -> alookup n (c_slots c) = Some s -> s_mail s = map MsgSend bufs -> s_mail_tx s = true -> ob_sealed (c_out c) = false -> (length bufs < fuel)%nat -> exists (c' : core) (taken rest : list bytes), chan_readable fuel n c = (OOk, c') /\ bufs = taken ++ rest /\ ob (c_out c') = ob (c_out c) ++ concat taken /\ ob_sealed (c_out c') = false /\ c_phase c' = c_phase c /\ c_qs c' = c_qs c /\ c_high c' = c_high c /\ (forall k : N, k <> n -> alookup k (c_slots c') = alookup k (c_slots c)) /\ (exists s' : slot, alookup n (c_slots c') = Some s' /\ s_mail s' = map MsgSend rest) /\ (rest <> [] -> c_need c' = true /\ c_high c < out_len c').
+Check C01_mailbox_fifo_below_mark : forall (n : N) (bufs : list bytes) (fuel : nat) (c : core) (s : slot), n <> 0 -> alookup n (c_slots c) = Some s -> s_mail s = map MsgSend bufs -> s_mail_tx s = true -> ob_sealed (c_out c) = false -> (length bufs < fuel)%nat -> N.of_nat (length (ob (c_out c) ++ concat bufs)) <= c_high c -> exists c' : core, chan_readable fuel n c = (OOk, c') /\ ob (c_out c') = ob (c_out c) ++ concat bufs /\ (exists s' : slot, alookup n (c_slots c') = Some s' /\ s_mail s' = []).
 Check C01_stream_write : forall (c : core) (oracle : list wr) (bs : bytes) (wr0 : wres) (ob' : outbuf) (rest : list wr), write_to_stream (c_out c) oracle = (bs, wr0, ob', rest) -> wr0 = WOk -> exists c' : core, handle_event c (EvStream (Some oracle) None) = (OOk, c', bs) /\ bs ++ ob (c_out c') = ob (c_out c) /\ ob_sealed (c_out c') = ob_sealed (c_out c) /\ c_slots c' = c_slots c /\ c_qs c' = c_qs c /\ c_phase c' = c_phase c.
 Check C01_write_interest : forall (l : loop) (outlen outlen' high low : N), loop_inv l outlen -> let '(l', _) := loop_tail l (negb (outlen =? 0)) outlen' high low in loop_inv l' outlen'.
 Check C01_first_batch : forall (l : loop) (outlen outlen' high low : N), loop_inv l outlen -> l_have_written l = false -> l_have_written (fst (loop_tail l (negb (outlen =? 0)) outlen' high low)) = true.
@@ -55,6 +60,7 @@ Print Assumptions C01_trace_conserves.
 Print Assumptions C01_append_spec.
 Print Assumptions C01_whole_frames.
 Print Assumptions C01_mailbox_fifo.
+Print Assumptions C01_mailbox_fifo_below_mark.
 Print Assumptions C01_stream_write.
 Print Assumptions C01_write_interest.
 Print Assumptions C01_first_batch.
